@@ -5,7 +5,7 @@ from rules import anchors, common
 
 CLAIMED = True
 TECHNIQUE = "static analysis over type-checked MIR: CFG reachability from the Response switch arms (chain interpreter), loop-exit analysis for error isolation, single handler site per error, comparison normal form of the threshold filter"
-LEVEL_TEXT = """Static, all-paths decision of: (F1) the chain interpreter in the per-appender delivery function: from the switch on Filter::filter's Response the Accept arm reaches Append::append without another filter call, the Reject arm cannot reach Append::append and returns Ok, the Neutral arm returns to the iterator step, exhaustion reaches Append::append; (F2) filters are iterated forward over the stored vector and builders append in call order; (F3) in the node's delivery loop the only loop exit is iterator exhaustion and the Err arm records the error and continues; (F4) Log::log calls the error handler at exactly one site, once per item of the returned error vector; (F5) ThresholdFilter::filter returns Reject exactly on record_level > threshold and Neutral otherwise (never Accept). User-supplied filters/appenders are not decided. (F2, cont.) no call anywhere in the crate sorts, reverses, removes from or otherwise reorders a list of filters in place. (F9) the handler comes from the snapshot that made the delivery (C15.A1); (F10) build_lossy never pairs one definition's sink with another's filters (C13.V9). (F11) a section's filters are read as one sequence (C14.K16). (F1, cont.) every return of Appender::append lies behind a filter call, the iterator step or the sink call (no verdict of the wrapper itself), and every return of Log::log lies behind the call of the node delivery function (no record dropped on a per-thread flag or counter)."""
+LEVEL_TEXT = """Static, all-paths decision of: (F1) the chain interpreter in the per-appender delivery function: from the switch on Filter::filter's Response the Accept arm reaches Append::append without another filter call, the Reject arm cannot reach Append::append and returns Ok, the Neutral arm returns to the iterator step, exhaustion reaches Append::append; (F2) filters are iterated forward over the stored vector and builders append in call order; (F3) in the node's delivery loop the only loop exit is iterator exhaustion and the Err arm records the error and continues; (F4) Log::log calls the error handler at exactly one site, once per item of the returned error vector; (F5) ThresholdFilter::filter returns Reject exactly on record_level > threshold and Neutral otherwise (never Accept). User-supplied filters/appenders are not decided. (F2, cont.) no call anywhere in the crate sorts, reverses, removes from or otherwise reorders a list of filters in place. (F9) the handler comes from the snapshot that made the delivery (C15.A1); (F10) build_lossy never pairs one definition's sink with another's filters (C13.V9). (F11) a section's filters are read as one sequence (C14.K16). (F1, cont.) every return of Appender::append lies behind a filter call, the iterator step or the sink call (no verdict of the wrapper itself), and every return of Log::log lies behind the call of the node delivery function (no record dropped on a per-thread flag or counter). The delivery call in the node's loop stands under the threshold test and the attachment iterator only."""
 LEVEL_NOTE = "Trusted: rustc MIR/callee resolution; Vec/slice iterators yield elements in order. Decides the interpreter's control-flow shape for every chain at once; behaviour of user components is outside."
 EXPLANATION = """Decided: F1 chain interpreter arms, F2 declaration order, F3 error isolation, F4 once per error, F5 threshold comparator. Undecided: behaviour of user-supplied Filter/Append implementations."""
 DECIDED = ["F1 Accept/Reject/Neutral arms", "F2 forward iteration, push order", "F3 loop exits only by exhaustion", "F4 one handler call per error", "F5 record_level > threshold => Reject else Neutral", "F6 a fresh filter list per appender in the lossy loader", "F7 a log::Log used as an appender is handed every admitted record"]
@@ -189,6 +189,21 @@ def rule_chain_interpreter(ctx, p, cfg, rid="F1"):
         r.require(not early, "no-verdict-outside-the-chain", fn=d,
                   detail="every return of %s lies behind a filter call, the iterator step or the sink call" % d.path,
                   fail_detail="%s can return (block %s) before any filter is consulted and without calling the sink: records are dropped by a test that is not part of the appender's filter chain (an Accept declared first never gets its say)" % (d.path, early[:3]))
+        # .. the loop over the node's attachments stands under the node's threshold and the list's own iterator, nothing else
+        nl_, ds_ = ro["node_log"], ro["deliver_site"]
+        gate_blocks = {sb_ for sb_, si_, al_, d_, w_ in common.threshold_gates(nl_, ds_.block, ro["enabled_pred"])}
+        extra_ = []
+        for sb_, si_, al_ in nl_.conditions(ds_.block):
+            if sb_ in gate_blocks:
+                continue
+            dd = strip(si_.discr)
+            inner_ = strip(dd[1]) if dd[0] == "discr" else dd
+            if any(x[0] == "call" and x[1] == NEXT for x in walk(inner_)):
+                continue
+            extra_.append(show(si_.discr, 4))
+        r.require(not extra_, "attachments-under-the-threshold-only", fn=nl_, site=ds_.at,
+                  detail="the delivery call in %s is control-dependent on the threshold test and the attachment iterator only" % nl_.path,
+                  fail_detail="the delivery call in %s is also guarded by %s: an admitted record can be kept from every appender of the node by a test that is no part of the configuration" % (nl_.path, extra_))
         # .. and the facade entry point hands every record it is given to the node's delivery function
         ll, site = ro["log_log"], ro["node_log_site"]
         # (a return that lies only behind the refusing edge of the threshold predicate is the level test the node makes anyway, hoisted: that edge is cut)
